@@ -43,6 +43,14 @@ CLAIMED = {
          "Generated stacks of item trees (lists incl. empty, pool ints, booleans, parser-producible names, every registered instruction; separately with floats incl. non-finite and > 3 decimals) are printed by Item::to_string, PushStack::to_string and CODE.PRINT and parsed back: structural equality (own walker and Item::equals) when float-free, print-parse-print fixpoint and shape equality with floats; plus every tree emitted by random_code_with_size(1..200).",
          "Trusted: the parser as inverse is the subject, nothing else; an independent printer (refmodel::print_item) cross-checks the print format. Vector / INDEX / GRAPH literals and names with blanks are outside the property's language.",
          "DESIGN.md section 4, C11"),
+ "C06": ("PBT with a closed-form oracle over a grammar of loop nests / combinator programs (TICK log), single-step reference checks, and lock-step differential against a reference interpreter",
+         "Programs generated from a grammar of EXEC.LOOP / INTVECTOR.LOOP / CODE.LOOP nests (depth <= 4) and EXEC.IF, CODE.IF, EXEC.K/S/DUP, CODE.DO/DO* blocks carry numbered TICKs; the observed log (marker, INDEX.CURRENT, top INTEGER) must equal the sequence obtained by evaluating the nest directly, and EXEC / INDEX / INTVECTOR / CODE must be clean afterwards. Each combinator and INDEX instruction is also single-stepped on arbitrary stacks against the documented effect, and random control-flow programs run lock-step against the reference interpreter.",
+         "Trusted: the direct evaluator of the loop grammar and the control-flow part of the reference interpreter (harness/src/props/c06.rs, refmodel2.rs). CODE.LOOP's wrong iteration count is a listed known finding (its re-arm list is pinned by a unit test); cases with too few operands are unspecified.",
+         "DESIGN.md section 4, C06"),
+ "C07": ("model-based PBT: exhaustive short token sequences + random define/use/quote/redefine programs, lock-step against a binding-map reference",
+         "Every token sequence up to length 4 (quick) / 6 (thorough) over two names, three literal types, their DEFINEs, NAME.QUOTE and CODE.DEFINITION, plus random programs over all eight defining types with pool values (NaN, empty vectors, nested code), run to completion and compared with the reference (binding map, quote flag, typed stacks) after every step.",
+         "Trusted: name semantics of the reference interpreter (refmodel2::ref_step, refmodel::ref_instr DEFINE).",
+         "DESIGN.md section 4, C07"),
 }
 PENDING_REASON = "check not built yet in this round (work in progress, see DESIGN.md section 4 for the planned check)"
 
